@@ -60,3 +60,27 @@ func (r *vpByteReader) ReadByte() (byte, error) {
 type vpBuf struct{ b []byte }
 
 func (w *vpBuf) Write(p []byte) (int, error) { w.b = append(w.b, p...); return len(p), nil }
+
+type vpInner struct {
+	X int16  `nbt:"x"`
+	S string `nbt:"s"`
+}
+
+func vpBE(v uint64, n int) []byte {
+	out := make([]byte, n)
+	for i := 0; i < n; i++ {
+		out[i] = byte(v >> uint(8*(n-1-i)))
+	}
+	return out
+}
+
+func vpTagHdr(tag byte, name string) []byte {
+	return append(append([]byte{tag}, vpBE(uint64(len(name)), 2)...), name...)
+}
+
+func vpStr(s string) []byte { return append(vpBE(uint64(len(s)), 2), s...) }
+
+
+type vpEmb struct {
+	E int16 `nbt:"e"`
+}
